@@ -78,6 +78,7 @@ def points(name, tier):
     if name == 'CGKO06.SSE2':
         d = dict(base)
         pts.append(('del param_n', d, 'param_n'))
+    pts.append(('del everything', {}, 'ALL'))
     return pts
 
 
@@ -129,6 +130,27 @@ def respects_capacity(name, cfg, prof):
 
 def run_point(r, seed, name, label, cfg, deleted):
     L = sse.loader(name)
+    if deleted == 'ALL':
+        # a configuration that lacks EVERY parameter, as a plain dict and as the mapping types a caller may use: refused when the
+        # scheme (its configuration) is built - never silently replaced by defaults
+        import collections
+        for mk in (dict, collections.OrderedDict, lambda: collections.defaultdict(int)):
+            c = mk()
+            case = {'scheme': name, 'point': label, 'cfg': {}, 'mapping_type': type(c).__name__, 'deleted': 'ALL'}
+            core.note_case(case)
+            r['evaluations'] += 1
+            r['states'] += 1
+            r['transitions'] += 1
+            try:
+                L.SSEScheme(c)
+            except Exception:
+                r.count('refused@config')
+                r.count('deletions')
+                r.outcome('refused@config/empty-configuration')
+                continue
+            r.v(PROPERTY, name, 'missing-parameter-not-refused-at-build', 'ALL/scheme', case,
+                'SSEScheme(cfg) refuses a configuration that lacks every parameter', 'scheme object built')
+        return
     cfg_in = copy.deepcopy(cfg)
     n_extra = cfg_in.pop('param_n_extra', 0) if name == 'CGKO06.SSE2' else 0
     accepted_any = False
